@@ -350,6 +350,10 @@ class PackagesParser(IndexFileParser):
                 download_file.ignore_errors = self._should_ignore_errors(
                     download_file.path
                 )
+                # The declared size must not depend on the presence of a known hash
+                download_file.add_compression_variant(
+                    path=self._file_path, size=self._size
+                )
                 for hash_type, hashsum in self._hashes.items():
                     download_file.add_compression_variant(
                         path=self._file_path,
